@@ -3,7 +3,7 @@ import json
 import random
 import re
 
-from vlib import histories, snapshot, reload
+from vlib import histories, snapshot, reload, cyclemech
 from props import C05_mech as mech
 
 LEVEL = 'exploration'
@@ -15,7 +15,9 @@ RULE = ('three seeded history streams drive the real engine: A = generic formula
         'C = the same edits over a dense three-table document built with explicit actions whose formula columns are '
         'sampled from a pool of the shapes the statement names (Ref / RefList attribute chains, lookups keyed on data '
         'and on formula columns, CONTAINS, order_by tuples, find.*, SUM($group.col) in summary tables incl. ChoiceList '
-        'and formula group-bys, lookups into summary tables, PREVIOUS/NEXT/RANK incl. a cumulative PREVIOUS chain). '
+        'and formula group-bys, lookups into summary tables, PREVIOUS/NEXT/RANK incl. a cumulative PREVIOUS chain); '
+        'D = as C, with bundles injected that bring a column name back which disappeared earlier and which formulas '
+        'may still mention (RenameColumn of another column to it, AddColumn of that name). '
         'Every few bundles, and after every sampled undo and redo, a second engine process is loaded with the metadata '
         'and data columns only (as storage hands them back), recalculates, and its snapshot is compared with the live one. '
         'A case = one comparison; non-trivial = the live document has >= 3 formula columns with >= 1 row; distinct by the '
@@ -23,12 +25,12 @@ RULE = ('three seeded history streams drive the real engine: A = generic formula
 ASSUMPTIONS = ['volatile / side-effecting formulas (NOW/TODAY/RAND/UUID/REQUEST/PEEK/lookupOrAddDerived) are never generated',
                'trigger-formula columns are data columns: they are loaded into the scratch engine, not recomputed',
                'cells whose value in the scratch engine itself depends on the evaluation order (cycles; C06/C18) are not judged',
-               'after a hit of a listed finding the rest of that history is not judged (its state is shaped by the listed defect)']
+               'after every reported difference the history continues on a reopened document (a fresh engine process loaded from the live data columns), so that later comparisons are not shaped by the defect already reported']
 REQUIRED = {'scratch_compares': {'quick': 250, 'thorough': 1500},
             'compares_after_undo': {'quick': 20, 'thorough': 150},
             'compares_after_redo': {'quick': 20, 'thorough': 150},
             'dense_histories': {'quick': 6, 'thorough': 24}}
-SHARD_TIMEOUT = {'quick': 600, 'thorough': 3000}
+SHARD_TIMEOUT = {'quick': 1800, 'thorough': 6000}
 
 WEIGHTS = {'add_formula_column': 12, 'modify_formula': 6, 'add_ref_column': 5, 'create_summary': 4, 'update_records': 20,
            'add_records': 14, 'remove_records': 8, 'modify_type': 5, 'rename_column': 4, 'remove_column': 3, 'invalid': 1,
@@ -49,22 +51,23 @@ WEIGHTS_C = {'update_records': 26, 'add_records': 10, 'remove_records': 9, 'repl
 FLAGS_C = dict(FLAGS, max_rows=12, max_cols=30, patterns=0.2, invalid_off=('bad_type', 'short_bulk'))
 
 WITNESSES = ['self_lookup_cycle', 'new_table_name', 'summary_error_keys', 'lookup_error_key', 'removed_sort_column',
-             'missing_lookup_column']
+             'missing_lookup_column', 'reinvalidated_cell', 'lookup_error_sort_cell', 'empty_table_key_type']
 
 
 def plan(tier, seed):
   if tier == 'quick':
-    na, sa, nb, sb, nc, sc = 16, 45, 8, 40, 8, 40
+    na, sa, nb, sb, nc, sc, nd = 16, 45, 8, 40, 8, 40, 6
   else:
-    na, sa, nb, sb, nc, sc = 64, 80, 40, 60, 48, 60
+    na, sa, nb, sb, nc, sc, nd = 64, 80, 40, 60, 48, 60, 24
   return [{'witness': w} for w in WITNESSES] + \
-         [{'hseed': seed * 100003 + 5000 + i, 'steps': sa, 'every': 4} for i in range(na)] + \
-         [{'hseed': seed * 100003 + 20000 + i, 'steps': sb, 'every': 4, 'stream': 'B', 'undo_every': 5} for i in range(nb)] + \
-         [{'hseed': seed * 100003 + 40000 + i, 'steps': sc, 'every': 4, 'stream': 'C', 'undo_every': 5} for i in range(nc)]
+         [{'hseed': seed * 100003 + 5000 + i, 'steps': sa, 'every': 2} for i in range(na)] + \
+         [{'hseed': seed * 100003 + 20000 + i, 'steps': sb, 'every': 2, 'stream': 'B', 'undo_every': 4} for i in range(nb)] + \
+         [{'hseed': seed * 100003 + 40000 + i, 'steps': sc, 'every': 2, 'stream': 'C', 'undo_every': 4} for i in range(nc)] + \
+         [{'hseed': seed * 100003 + 60000 + i, 'steps': sc, 'every': 2, 'stream': 'D', 'undo_every': 6, 'inject': 0.2} for i in range(nd)]
 
 
 # --------------------------------------------------------------------------------------- witnesses
-def _witness(acc, key, actions, check=None):
+def _witness(acc, key, actions, last_bundle=None):
   """Replays an explicit history, compares live with scratch and reports under `key` while the
   mechanism classifier attributes the whole difference to that finding."""
   from vlib.client import EngineProc
@@ -72,6 +75,8 @@ def _witness(acc, key, actions, check=None):
     p.init_doc()
     for a in actions:
       p.apply([a])
+    if last_bundle:
+      p.apply(last_bundle)
     S = snapshot.take(p)
     F, _ = reload.scratch_snapshot(p)
     d = snapshot.diff(S, F)
@@ -128,6 +133,31 @@ def witness_lookup_error_key(acc):
     ['UpdateRecord', 'T', 1, {'A': 7}]])
 
 
+def witness_lookup_error_sort_cell(acc):
+  """Same finding, sorted lookups: when a sort cell turns into an error the sorted helper raises
+  before it forgets the cached order, so the lookup keeps returning the old order."""
+  _witness(acc, 'lookup_index_keeps_error_keys', [
+    ['AddTable', 'T', [{'id': 'X', 'type': 'Int', 'isFormula': False}, {'id': 'B', 'type': 'Int', 'isFormula': False},
+                       {'id': 'A', 'type': 'Any', 'isFormula': True, 'formula': '$X if $X < 5 else 1/0'}]],
+    ['AddTable', 'U', [{'id': 'Y', 'type': 'Int', 'isFormula': False},
+                       {'id': 'N', 'type': 'Any', 'isFormula': True, 'formula': '[r.id for r in T.lookupRecords(B=$Y, order_by="A")]'}]],
+    ['BulkAddRecord', 'T', [None, None, None], {'X': [3, 1, 2], 'B': [1, 1, 2]}],
+    ['BulkAddRecord', 'U', [None, None], {'Y': [1, 2]}],
+    ['UpdateRecord', 'T', 2, {'X': 7}]])
+
+
+def witness_empty_table_key_type(acc):
+  """Open finding: lookup_records reads the type of the key column (to convert the key) without any
+  dependency on that column; dependencies on it exist only through rows of the lookup index, so with
+  an empty looked-up table a type change of the key column does not re-evaluate the lookup."""
+  _witness(acc, 'lookup_in_empty_table_ignores_key_type', [
+    ['AddTable', 'T1', [{'id': 'A', 'type': 'Numeric', 'isFormula': False}]],
+    ['AddTable', 'T2', [{'id': 'A', 'type': 'Numeric', 'isFormula': False}]],
+    ['BulkAddRecord', 'T1', [None, None], {'A': [0, 0]}],
+    ['AddColumn', 'T1', 'F', {'isFormula': True, 'type': 'Any', 'formula': '[x.id for x in T2.lookupRecords(A=$A)]'}],
+    ['ModifyColumn', 'T2', 'A', {'type': 'RefList:T1'}]])
+
+
 def witness_removed_sort_column(acc):
   """Open finding: removing a column that a lookup sorts by leaves the sorted lookup helper in use."""
   _witness(acc, 'removed_lookup_column_keeps_helper', [
@@ -151,6 +181,25 @@ def witness_missing_lookup_column(acc):
     ['BulkAddRecord', 'U', [None, None], {'X': [1, 2]}],
     ['RenameColumn', 'T', 'A', 'Z'],
     ['AddColumn', 'U', 'Z', {'type': 'Int', 'isFormula': False}]])
+
+
+def witness_reinvalidated_cell(acc):
+  """Open finding: a formula cell that a lookup helper reads (it is a lookup key / sort column) is
+  evaluated with the lookup nodes, before another lookup map, processed later in the same
+  recalculation, invalidates what it read; the second invalidation is ignored (rows already done in
+  this recalculation are excluded), so the cell keeps the value computed from stale inputs."""
+  _witness(acc, 'reinvalidated_cell_not_recomputed', [
+    ['AddTable', 'People', [{'id': 'Name', 'type': 'Text', 'isFormula': False}]],
+    ['AddTable', 'Depts', [{'id': 'Head', 'type': 'Ref:People', 'isFormula': False}]],
+    ['AddColumn', 'People', 'Dept', {'type': 'Ref:Depts', 'isFormula': False}],
+    ['AddTable', 'Orders', [{'id': 'Who', 'type': 'Ref:People', 'isFormula': False}]],
+    ['BulkAddRecord', 'People', [None, None], {'Name': ['a', 'b'], 'Dept': [1, 1]}],
+    ['BulkAddRecord', 'Depts', [None, None], {'Head': [0, 0]}],
+    ['BulkAddRecord', 'Orders', [None, None], {'Who': [2, 1]}],
+    ['AddColumn', 'Depts', 'Size', {'isFormula': True, 'type': 'Any', 'formula': 'len(People.lookupRecords(Dept=$id))'}],
+    ['AddColumn', 'Orders', 'N', {'isFormula': True, 'type': 'Any', 'formula': 'list(Depts.lookupRecords(Head=$Who).Size)'}],
+    ['AddColumn', 'Orders', 'P', {'isFormula': True, 'type': 'Any', 'formula': '[o.id for o in Orders.lookupRecords(N=$N)]'}]],
+    last_bundle=[['UpdateRecord', 'Orders', 1, {'Who': 0}], ['AddRecord', 'People', None, {'Name': 'c', 'Dept': 2}]])
 
 
 # --------------------------------------------------------------------------------------- coverage
@@ -215,18 +264,49 @@ def edit_kinds(bundle):
 
 
 # --------------------------------------------------------------------------------------- the monitor
-ORDER_SEEDS = (1, 2, 3, 4)
+ORDER_SEEDS = (1, 2, 3, 4, 5, 6)
 
 
 class ScratchMonitor(histories.Monitor):
-  def __init__(self, every, undo_every=0, seed=0):
+  def __init__(self, every, undo_every=0, seed=0, inject=0):
     self.every = every
     self.undo_every = undo_every
-    self.MUTATES = bool(undo_every)
+    self.inject = inject          # stream D: share of bundles replaced by a 'missing name comes back' bundle
+    self.prev_cols = None
+    self.gone = set()
+    self.MUTATES = True       # (undo / redo steps, and reopening after a finding: the next bundle starts from a new snapshot)
     self.rnd = random.Random(seed * 7919 + 17)
     self.n = 0
     self.stopped = False
     self.pending_kinds = set()
+    self.host = None
+    self.host_failed = False
+    self.reopens = 0
+    self.own_procs = []
+
+  # -- the scratch engine: a fresh Engine object in a host process (cheap), or a fresh process
+  def scratch(self, h, order_seed=None, fresh_process=False):
+    if not fresh_process and not self.host_failed:
+      try:
+        if self.host is None:
+          self.host = reload.ScratchHost()
+        return self.host.snapshot(h.proc, order_seed), 'host'
+      except Exception:      # pylint: disable=broad-except
+        h.acc.count('scratch_host_failures')
+        self.close()
+        self.host_failed = True
+    return reload.scratch_snapshot(h.proc, order_seed=order_seed)[0], 'process'
+
+  def close(self):
+    if self.host is not None:
+      self.host.close()
+      self.host = None
+    for p in self.own_procs:
+      try:
+        p.kill()
+      except Exception:      # pylint: disable=broad-except
+        pass
+    self.own_procs = []
 
   # -- evaluation-order dependence of the scratch result itself (C06 / C18 territory)
   def order_dependent_mask(self, h, F):
@@ -235,7 +315,7 @@ class ScratchMonitor(histories.Monitor):
     vt, vc = set(), set()
     for s in ORDER_SEEDS:
       try:
-        G, _ = reload.scratch_snapshot(h.proc, order_seed=s)
+        G, _ = self.scratch(h, order_seed=s)
       except Exception:      # pylint: disable=broad-except
         continue
       h.acc.count('scratch_loads_under_permuted_order')
@@ -266,17 +346,18 @@ class ScratchMonitor(histories.Monitor):
       out[t] = (rows, cc)
     return out
 
-  def compare(self, h, S, what):
+  def compare(self, h, S, what, fresh_process=False):
     acc = h.acc
     if self.stopped:
       acc.count('compares_skipped_after_known_finding')
       return
     try:
-      F, reply = reload.scratch_snapshot(h.proc)
+      F, how = self.scratch(h, fresh_process=fresh_process)
     except Exception as e:      # pylint: disable=broad-except
       h.violation('scratch_load_raises', 'loading a fresh engine from the reported data raised %r' % (e,), {})
       return
     acc.count('scratch_compares')
+    acc.count('scratch_in_fresh_' + how)
     acc.count('compares_' + what)
     for tag in shapes_present(S):
       acc.count('compared_with.' + tag)
@@ -292,6 +373,18 @@ class ScratchMonitor(histories.Monitor):
       sig = histories.shape_hash(sorted(c['formula'] for c in C.values() if c['isFormula']),
                                  sorted(len(S[t][0]) for t in S if not t.startswith('_grist_')))
     acc.case(sig, {'formulas': sorted(set(c['formula'] for c in snapshot.rows_of(S, '_grist_Tables_column').values() if c['formula']))[:12]} if sig else None)
+    if d and how == 'host':
+      # Every difference seen against a fresh Engine object in the host process is re-checked
+      # against a fresh engine *process* (the real reload path) before it is judged.
+      try:
+        F = reload.scratch_snapshot(h.proc)[0]
+      except Exception as e:      # pylint: disable=broad-except
+        h.violation('scratch_load_raises', 'loading a fresh engine process from the reported data raised %r' % (e,), {})
+        return
+      acc.count('diffs_rechecked_in_fresh_process')
+      d = snapshot.diff(S, F, maxn=8)
+      if not d:
+        acc.count('host_scratch_disagreed_with_fresh_process')
     if d:
       self.judge(h, S, F, d, what)
 
@@ -299,6 +392,13 @@ class ScratchMonitor(histories.Monitor):
     acc = h.acc
     m = mech.classify(S, F)
     note = ''
+    if m is None and cyclemech.classify(S, F) == 'cycle_error_caught_by_formula':
+      # A cycle of plain references one of whose formulas catches the error of its operand: which
+      # cell gets the error depends on the evaluation order (listed under C06 / C18), so the fresh
+      # engine's value is not defined by the data alone.
+      acc.count('diffs_attributed_to_evaluation_order_C06_C18')
+      acc.count('diffs_attributed_statically_cycle_error_caught_by_formula')
+      return
     if m is None:
       # Not a listed mechanism. Is the scratch value of the differing cells defined at all, or does
       # it depend on the evaluation order (then the case belongs to C06 / C18, not here)?
@@ -316,20 +416,74 @@ class ScratchMonitor(histories.Monitor):
     if m is None:
       kind, _ = histories.trace_kind(S, F)
       m = 'incremental_vs_scratch' if kind == 'formula_cells' else 'scratch_data_differs'
-    else:
-      # The rest of this history runs on a state shaped by a listed defect: not judged any further.
-      self.stopped = True
-      acc.count('histories_not_judged_further_after_known_finding')
     h.violation(m, 'live formula values (%s) differ from a fresh engine recalculating the same data%s: %s' % (what, note, d[:3]),
                 {'diff': d, 'when': what})
+    # From here on the live state is shaped by the defect just reported. The history goes on with a
+    # reopened document: a fresh engine process loaded from the live engine's data columns (what
+    # closing and opening the document does), so that later comparisons are judged on their own.
+    self.reopen(h)
+
+  MAX_REOPENS = 8
+
+  def reopen(self, h):
+    acc = h.acc
+    self.reopens += 1
+    if self.reopens > self.MAX_REOPENS:
+      self.stopped = True
+      acc.count('histories_not_judged_further_after_many_findings')
+      return
+    try:
+      fresh, _ = reload.load_from(h.proc, False)
+    except Exception:      # pylint: disable=broad-except
+      self.stopped = True
+      acc.count('histories_not_judged_further_reopen_failed')
+      return
+    old = h.proc
+    h.proc = fresh
+    self.own_procs.append(fresh)
+    try:
+      old.close()
+    except Exception:      # pylint: disable=broad-except
+      old.kill()
+    h.log.append(['reopen', [], True])
+    acc.count('documents_reopened_after_finding')
+
+  def before_bundle(self, h, bundle, S0):
+    """Stream D: column names that formulas may still mention come back. The monitor remembers the
+    (table, column) ids that disappeared (RemoveColumn, or renamed away) and, with probability
+    `inject`, replaces the generated bundle (in place, with its own random source) by one that gives
+    such a name to another column of that table (RenameColumn) or adds a column of that name."""
+    if not self.inject:
+      return None
+    doc = mech.Doc(S0)
+    cur = set(k for k in doc.cols if not k[0].startswith('_grist_'))
+    if self.prev_cols is not None:
+      self.gone.update(self.prev_cols - cur)
+    self.gone -= cur
+    self.prev_cols = cur
+    cands = [(t, c) for (t, c) in sorted(self.gone) if t in doc.tables and t not in doc.summary_of
+             and c not in ('manualSort', 'group', 'id') and not c.startswith('gristHelper_')]
+    if not cands or self.rnd.random() >= self.inject:
+      return None
+    t, c = self.rnd.choice(cands)
+    others = sorted(k[1] for k in cur if k[0] == t and k[1] not in ('manualSort', 'group') and not k[1].startswith('gristHelper_'))
+    if others and self.rnd.random() < 0.6:
+      bundle[:] = [['RenameColumn', t, self.rnd.choice(others), c]]
+      h.acc.count('injected.rename_column_to_missing_name')
+    else:
+      bundle[:] = [['AddColumn', t, c, {'type': self.rnd.choice(['Int', 'Text', 'Any', 'Numeric']), 'isFormula': False}]]
+      h.acc.count('injected.add_column_of_missing_name')
+    return None
 
   def after_bundle(self, h, ctx):
     self.n += 1
     self.pending_kinds.update(edit_kinds(ctx.bundle) if ctx.err is None else [])
-    if self.n % self.every == 0 or ctx.step == h.steps - 1:
-      self.compare(h, ctx.S1, 'after_bundle')
+    last = ctx.step == h.steps - 1
+    n0 = self.reopens
+    if self.n % self.every == 0 or last:
+      self.compare(h, ctx.S1, 'after_bundle', fresh_process=last)
     r = ctx.reply
-    if not self.undo_every or r is None or not (r.stored or r.undo) or self.stopped:
+    if not self.undo_every or r is None or not (r.stored or r.undo) or self.stopped or self.reopens != n0:
       return
     if self.rnd.random() * self.undo_every >= 1:
       return
@@ -338,7 +492,10 @@ class ScratchMonitor(histories.Monitor):
       h.acc.count('undo_raised_C01_territory')
       return
     self.pending_kinds.add('ApplyUndoActions')
+    n0 = self.reopens
     self.compare(h, h.snap(), 'after_undo')
+    if self.reopens != n0 or self.stopped:
+      return            # the document was reopened: the stored actions of this bundle no longer apply to it
     rr, err = h.apply([['ApplyDocActions', json.loads(json.dumps(r.stored))]], 'redo')
     if err is not None:
       h.acc.count('redo_raised_C03_territory')
@@ -451,16 +608,19 @@ def setup_dense(h):
 def run_shard(spec, acc):
   if spec.get('witness'):
     return globals()['witness_' + spec['witness']](acc)
-  mon = ScratchMonitor(spec.get('every', 4), spec.get('undo_every', 0), spec['hseed'])
+  mon = ScratchMonitor(spec.get('every', 4), spec.get('undo_every', 0), spec['hseed'], spec.get('inject', 0))
   stream = spec.get('stream', 'A')
   acc.count('histories_stream_' + stream)
   if stream == 'B':
     h = histories.History(acc, spec['hseed'], [mon], spec['steps'], weights=WEIGHTS_B, flags=FLAGS_B, avoid_open_triggers=False)
-  elif stream == 'C':
+  elif stream in ('C', 'D'):
     h = histories.History(acc, spec['hseed'], [mon], spec['steps'], weights=WEIGHTS_C, flags=FLAGS_C, avoid_open_triggers=False,
                           setup=setup_dense)
   else:
     h = histories.History(acc, spec['hseed'], [mon], spec['steps'], weights=WEIGHTS, flags=FLAGS, avoid_open_triggers=False)
-  h.run()
+  try:
+    h.run()
+  finally:
+    mon.close()
   for k, v in getattr(h.gen, 'pattern_counts', {}).items():
     acc.count('pattern.' + k, v)
